@@ -573,7 +573,7 @@ func runStreamAPIPage(c *Ctx, idx int) error {
 			next++
 		}
 		assigned = append(assigned, out...)
-		if _, _, err := stream.Garble(circ, in, out); err != nil {
+		if err := streamingGarble(stream, s, circ, in, out); err != nil {
 			return fmt.Errorf("Streaming.Garble: %v", err)
 		}
 		steps = append(steps, streamStep{circ, in, out})
